@@ -1612,6 +1612,16 @@ class Flattener(object):
             cc = CC()
             s = cc.visit(s)
             self.desugared += cc.n
+        # for x in A + B: BODY    ==>    for x in A: BODY;  for x in B: BODY      (no break in BODY; A and B are evaluated first
+        # in both forms when they are names - otherwise only when evaluating them is pure)
+        if isinstance(s, ast.For) and isinstance(s.iter, ast.BinOp) and isinstance(s.iter.op, ast.Add) and not s.orelse and \
+                not _contains(s.body, ast.Break) and \
+                all(isinstance(p_, (ast.Name, ast.ListComp, ast.List, ast.Attribute)) for p_ in (s.iter.left, s.iter.right)):
+            first = ast.copy_location(ast.For(target=s.target, iter=s.iter.left, body=s.body, orelse=[], type_comment=None), s)
+            second = ast.copy_location(ast.For(target=clone(s.target), iter=s.iter.right, body=[clone(b) for b in s.body], orelse=[],
+                                               type_comment=None), s)
+            self.desugared += 1
+            return self.desugar([first, second])
         # for x in (e for t in S if c): B    ==>    for t in S: if c: x = e; B       (t renamed when the name is taken)
         if isinstance(s, ast.For) and isinstance(s.iter, (ast.GeneratorExp, ast.ListComp)) and len(s.iter.generators) == 1 and not s.orelse \
                 and (isinstance(s.iter, ast.GeneratorExp) or True):
